@@ -4,7 +4,8 @@ import json, os, subprocess, sys
 V = "/verif"
 ALSO = {"C02b": ["C17"], "C01": ["C02"], "C02": ["C01"], "C05": ["C06"], "C04": [], "C19": ["C18"], "C14": ["C19"], "C18": [], "C16": [], "C06": []}
 names = sys.argv[1:] or sorted(os.listdir(os.path.join(V, "seeded")))
-res = {}
+MP = os.path.join(V, "seeded", "MATRIX.json")
+res = json.load(open(MP)) if (sys.argv[1:] and os.path.exists(MP)) else {}
 for name in names:
     d = os.path.join(V, "seeded", name)
     if not os.path.exists(os.path.join(d, "patch.diff")):
@@ -27,4 +28,4 @@ for name in names:
     finally:
         subprocess.run(["git", "-C", "/repo", "checkout", "--", "."], check=True)
     print(name, json.dumps(res[name]), flush=True)
-json.dump(res, open(os.path.join(V, "seeded", "MATRIX.json"), "w"), indent=1)
+json.dump(res, open(MP, "w"), indent=1, sort_keys=True)
